@@ -12,7 +12,12 @@ class URIDict(MutableMapping):
     """
 
     def normalize(self, uri):
-        return urlsplit(uri).geturl()
+        try:
+            return urlsplit(uri).geturl()
+        except ValueError:
+            # Not something urlsplit can take apart (e.g. "http://[oops"):
+            # such a string can only ever be equal to itself.
+            return uri
 
     def __init__(self, *args, **kwargs):
         self.store = dict()
